@@ -143,7 +143,10 @@ impl<'a, N: Normalizer> Html5Serializer<'a, N> {
                     self.fullname_serializer.add_empty_prefix(namespace_id);
                     // we also need to serialize the additional xmlns
                     let local_name = self.xot.local_name_str(element.name_id);
-                    let namespace_uri = self.xot.namespace_str(namespace_id);
+                    let namespace_uri = serialize_attribute_html(
+                        self.xot.namespace_str(namespace_id).into(),
+                        &self.normalizer,
+                    );
                     return Ok(OutputToken {
                         space: false,
                         text: format!("<{} xmlns=\"{}\"", local_name, namespace_uri),
@@ -209,7 +212,11 @@ impl<'a, N: Normalizer> Html5Serializer<'a, N> {
                     });
                 }
 
-                let namespace = self.xot.namespace_str(*namespace_id);
+                // the namespace URI is written as an attribute value, so escape it as one
+                let namespace = serialize_attribute_html(
+                    self.xot.namespace_str(*namespace_id).into(),
+                    &self.normalizer,
+                );
                 if *prefix_id == self.xot.empty_prefix_id {
                     OutputToken {
                         space: true,
